@@ -9,10 +9,18 @@ separately at every position; pair.ForEach / seq.ForEach with an error injected 
 itself.  Keys always differ from values and the function families are asymmetric in (key, value), so a swapped
 or desynchronised key/value shows.
 
+Other element types and callback arguments (checks/iterx.py, go/harness/iter/{types,ref}.go): the harness builders are
+generic in K, V of pair.Seq[K,V] and E of seq.Seq[E]; every case is evaluated, in the same process and in an order that
+changes from case to case, at (int,int,int), (int,string,string), (int,I,I) for an interface type I whose 0 is the nil
+interface value, and (any,string,int); all results must agree (direct oracle only: the model is compared on the int
+part).  Every callback logs the key and value (or element) it is called with; the logged calls must be among those an
+eager evaluation with the list functions makes ("predicates and join functions receiving the matching key and value").
+
 case line:  <errAt> <S|P> <expr>     (grammar: see lean/Golem/Driver/C15.lean)
 """
 import json
 import vlib
+from checks import iterx
 
 S_UNARY = ("TW", "DW", "FI", "MP")
 P_UNARY = ("PTW", "PDW", "PFI", "PMP")
@@ -132,6 +140,13 @@ def dropwhile(f, l):
 
 def denote(n, env, stats=None):
     """List semantics: ints for seq expressions, (key, value) tuples for pair expressions."""
+    out = denote1(n, env, stats)
+    if stats is not None and any((x[1] if isinstance(x, tuple) else x) == 0 for x in out):
+        stats["zero_seen"] = 1           # a 0 element / value somewhere in the expression: the nil interface value at the interface typings
+    return out
+
+
+def denote1(n, env, stats):
     op, fn, terms, kids = n
     if op == "F":
         return [term_val(terms[0], env)]
@@ -143,10 +158,16 @@ def denote(n, env, stats=None):
         l = denote(kids[0], env, stats)
         if op == "MP":
             f = map1(fn, env)
-            return [f(x) for x in l]
+            out = [f(x) for x in l]
+            if stats is not None and 0 in out:
+                stats["map_zero"] = stats.get("map_zero", 0) + 1     # at the interface typings: a mapping returning nil
+            return out
         if op == "PMP":
             f = map2(fn, env)
-            return [(k, f(k, v)) for k, v in l]         # keys untouched
+            out = [(k, f(k, v)) for k, v in l]          # keys untouched
+            if stats is not None and any(v == 0 for _, v in out):
+                stats["map_zero"] = stats.get("map_zero", 0) + 1
+            return out
         if op in S_UNARY:
             p = pred1(fn, env)
         else:
@@ -190,6 +211,23 @@ def ops(n, acc):
 
 def crossings(n):
     return (1 if n[0] in ("TS", "FS") else 0) + sum(crossings(k) for k in n[3])
+
+
+def stack(n):
+    """(length of the longest chain of unary combinators applied DIRECTLY to each other, the same one twice in a row?)"""
+    best, same = 0, False
+    unary = S_UNARY + P_UNARY
+
+    def go(m, run):
+        nonlocal best, same
+        run = run + 1 if m[0] in unary else 0
+        best = max(best, run)
+        for k in m[3]:
+            if m[0] in unary and k[0] == m[0]:
+                same = True
+            go(k, run)
+    go(n, 0)
+    return best, same
 
 
 def expected(errat, n):
@@ -247,12 +285,14 @@ def gen_map2(rng, envd, small):
 
 
 def gen_pf(rng, envd, small):
-    """pair.From with key != value (value = something + 10 or more)."""
+    """pair.From with key != value (value = something + 10 or more, or 0 under a non-zero literal key)."""
     k = gen_term(rng, envd, small)
     if envd > 0 and rng.random() < 0.5:
         v = (rng.randrange(envd), rng.choice([10, 11, 20]))
     else:
         v = rng.randrange(10, 20)
+    if isinstance(k, int) and k != 0 and rng.random() < 0.1:
+        v = 0                 # still different from the key; at the interface typings of the harness: the nil interface value
     return ("PF", None, [k, v], [])
 
 
@@ -414,10 +454,41 @@ def gen_mixed(rng):
     return (kind, None, [], [lhs, body])
 
 
+def gen_stacked(rng):
+    """2-4 unary combinators applied DIRECTLY to each other's result (the same one repeated, with another function, more often
+    than not) over a pair source of 3-6 elements (or a seq source, under a ToSeq): what a combinator does when its argument IS
+    another combinator's iterator (two filters fused into one, a map of a map, ...) shows only on such stacks, and only when the
+    source is long enough for elements to be rejected after the first accepted one.  Some values are 0 (the nil interface value
+    at the interface typings), keys stay different from values."""
+    n = rng.randrange(3, 7)
+    keys = [rng.randrange(1, 10) for _ in range(n)]
+    if rng.random() < 0.35:                          # pair.FromSeq over the keys
+        t = ("FS", None, [], [("S", None, keys, []), ("PF", None, [(0, 0), (0, rng.choice([10, 11, 20]))], [])])
+    else:                                            # Plus of pair.From
+        vals = [0 if rng.random() < 0.2 else rng.randrange(10, 25) for _ in keys]
+        t = ("PF", None, [keys[0], vals[0]], [])
+        for k, v in zip(keys[1:], vals[1:]):
+            t = ("PPL", None, [], [t, ("PF", None, [k, v], [])])
+    op = rng.choice(P_UNARY)
+    for _ in range(rng.randrange(2, 5)):
+        if rng.random() < 0.4:
+            op = rng.choice(P_UNARY)
+        t = (op, gen_map2(rng, 0, False) if op == "PMP" else gen_pred2(rng, 0, False), [], [t])
+    if rng.random() < 0.25:                          # the same for the seq combinators, fed by ToSeq
+        t = ("TS", None, [], [t, ("S", None, [(0, 0), (1, 0)], [])])
+        op = rng.choice(S_UNARY)
+        for _ in range(rng.randrange(2, 4)):
+            if rng.random() < 0.4:
+                op = rng.choice(S_UNARY)
+            t = (op, gen_map1(rng, 0, False) if op == "MP" else gen_pred1(rng, 0, False), [], [t])
+    return t
+
+
 def make_cases(ctx, boost):
     rng = ctx.rng
     trees = [gen_midnil(rng) for _ in range((1500 if ctx.thorough() else 150) * boost)]
     trees += [gen_mixed(rng) for _ in range((1000 if ctx.thorough() else 100) * boost)]
+    trees += [gen_stacked(rng) for _ in range((3000 if ctx.thorough() else 300) * boost)]
     small = enumerate_small(3)
     if ctx.thorough():
         trees += small
@@ -498,13 +569,18 @@ def shrink(ctx, binp, case, fails):
 # ------------------------------------------------------------------ the check
 
 def core(line):
-    return line.rsplit("|src=", 1)[0]
+    """impl line without the src= / ty= / calls= / order= fields: the evaluation at K = V = E = int."""
+    return iterx.core(line)
 
 
 def run(ctx):
     ctx.cov["rule"] = ("case = (errAt, kind, expression tree over pair.From/TakeWhile/DropWhile/Filter/Map/Plus/Join/ToSeq/FromSeq and the seq combinators; "
                        "keys differ from values in every pair source; predicate/mapping families asymmetric in (key,value); join bodies are expressions over the bound key/value; "
-                       "non-trivial = depth >= 2 and non-empty result or a nil-returning join call; distinct by case line")
+                       "non-trivial = depth >= 2 and non-empty result or a nil-returning join call; distinct by case line. "
+                       "Every case is also evaluated by the harness at the typings (K,V,E) = (int,string,string), (int,I,I) with I an interface type whose 0 is the nil interface value, "
+                       "and (any,string,int), in the same process, in an order (int first / another typing first) fixed by a hash of the case line: distribution.retyped_evaluations "
+                       "counts these evaluations (one drain + one ForEach each); they are judged by the direct oracle only (agreement with the int result), the model is compared on the int part. "
+                       "distribution.callback_argument_check: cases whose callback calls (callback, environment, key, value) were all found among the calls of an eager list evaluation (ok)")
     ctx.assumptions += ["linear use: an expression is built once and each sub-iterator is handed to exactly one combinator",
                         "user functions are total and pure; join functions return a fresh Seq per call",
                         "pair.takeWhile/filter/plus/join/toSeq/fromSeq are modelled by signature-indexed constructors shared with their seq.go twins (the Go texts are copies of each other); a divergence of one copy is caught by the correspondence, not by the proof",
@@ -536,7 +612,7 @@ def run(ctx):
 
     def fails(line, got):
         ea, t = parse_case(line)
-        return core(got) != expected(ea, t) or not got.endswith("|src=ok")
+        return core(got) != expected(ea, t) or not iterx.extras_ok(got)
 
     reported = 0
     for c, got in zip(cases, impl):
@@ -552,11 +628,16 @@ def run(ctx):
         ctx.hist("errAt", "none" if ea < 0 else ("past-end" if ea >= len(l) else "inside"))
         if stats["join_calls"]:
             ctx.hist("join_nil_results", "all" if stats["join_nil"] == stats["join_calls"] else ("some" if stats["join_nil"] else "none"))
+        iterx.record(ctx, got)
+        ctx.hist("nil_interface_values", "returned by a mapping" if stats.get("map_zero") else ("elsewhere in the expression" if stats.get("zero_seen") else "none"))
+        chain, same = stack(t)
+        ctx.hist("direct_unary_stack", chain)
+        ctx.hist("same_unary_combinator_twice_in_a_row", same)
         dist = ctx.cov["distribution"].setdefault("combinator", {})
         for k, v in ops(t, {}).items():
             dist[k] = dist.get(k, 0) + v
         want = expected(ea, t)
-        if core(got) != want or not got.endswith("|src=ok"):
+        if core(got) != want or not iterx.extras_ok(got):
             reported += 1
             if reported <= 3:
                 small = shrink(ctx, binp, c, fails) if not ctx.replay else c
@@ -565,10 +646,13 @@ def run(ctx):
                     sgot = g2[0] if g2 else got
                 except Exception:
                     small, sgot = c, got
+                if not fails(small, sgot):          # state-dependent and not reproduced by the rerun: keep the observed one
+                    small, sgot = c, got
                 sea, st = parse_case(small)
-                what = ("a source slice was modified" if core(sgot) == expected(sea, st) else
-                        "draining / ForEach over the pair/seq expression does not yield the (key,value) list given by the list functions")
-                ctx.violations.append(vlib.Violation("impl", what, case=small, expected=expected(sea, st) + "|src=ok", got=sgot,
-                                                     key={"top": st[0], "original_case": c}))
+                what, cls = iterx.classify("C15", sgot, core(sgot) == expected(sea, st))
+                if what is None:
+                    what, cls = "draining / ForEach over the pair/seq expression does not yield the (key,value) list given by the list functions", "list"
+                ctx.violations.append(vlib.Violation("impl", what, case=small, expected=expected(sea, st) + iterx.TAIL_OK, got=sgot,
+                                                     key={"top": st[0], "class": cls, "original_case": c}))
         elif d >= 3 and len(l) > 1 and crossings(t) > 0:
             ctx.sample({"case": c, "impl": got, "model_and_list_semantics": want})
